@@ -302,6 +302,8 @@ class Fn:
         if not t or 'cond' not in t:
             return None
         c = t['cond']
+        if t['kind'] not in ('land', 'lor') and _join_form(self, bid) is not None:
+            return c            # evaluated as a value: the whole expression decides
         # For if/while/for/do/?: whose condition is `a && b` / `a || b` the CFG has already
         # branched on the left operands; the value tested here is the rightmost operand.
         while isinstance(c, dict) and c.get('k') == 'bin' and c['op'] in ('&&', '||'):
@@ -463,12 +465,13 @@ class Fn:
                     continue
                 nf = fs
                 if sensitive:
-                    ef = _edge_fact(self, bid, idx)
-                    if ef:
-                        if contradicts(ef, fs):
+                    efs = _edge_facts(self, bid, idx)
+                    if efs:
+                        if any(contradicts(ef, fs) for ef in efs):
                             continue        # contradicts a condition taken earlier
                         nf = set(fs)
-                        nf.add((ef[0], ef[1]))
+                        for ef in efs:
+                            nf.add((ef[0], ef[1]))
                 work.append((s, 0, path + [s], frozenset(nf)))
         return None
 
@@ -530,8 +533,16 @@ class Fn:
         return out
 
     def edge_fact(self, bid, idx):
-        """Fact established by taking successor #idx of block bid: (key, pol, atom) or None."""
+        """First fact established by taking successor #idx of block bid: (key, pol, atom) or None."""
         return _edge_fact(self, bid, idx)
+
+    def edge_facts(self, bid, idx):
+        """All facts established by that edge (several when `a || b` is false / `a && b` is true
+        and the condition is evaluated as a value)."""
+        return _edge_facts(self, bid, idx)
+
+    def reachable_blocks(self):
+        return self.reachable_from(self.entry) | {self.entry}
 
 
 def _dominators(entry, nodes, succ, preds):
@@ -677,40 +688,105 @@ def _inline_atom(prog, d, pol, depth):
     return d, pol
 
 
-def _edge_fact(fn, bid, idx):
+def _flatten(c, op):
+    c = strip(c) if isinstance(c, dict) and c.get('k') == 'tobool' else c
+    if isinstance(c, dict) and c.get('k') == 'bin' and c['op'] == op:
+        return _flatten(c['l'], op) + _flatten(c['r'], op)
+    return [c]
+
+
+def _join_form(fn, bid):
+    """The block evaluates `a || b` / `a && b` as a VALUE and then branches on it (clang does this
+    when the condition needs cleanups, e.g. string temporaries): some predecessor's
+    short-circuit edge enters this block directly."""
+    b = fn.blocks[bid]
+    t = b.get('term')
+    if not t or 'cond' not in t or t['kind'] in ('land', 'lor'):
+        return None
+    c = t['cond']
+    while isinstance(c, dict) and c.get('k') == 'tobool':
+        c = c['e']
+    if not (isinstance(c, dict) and c.get('k') == 'bin' and c['op'] in ('&&', '||')):
+        return None
+    op = c['op']
+    for p in fn.preds.get(bid, []):
+        pt = fn.blocks[p].get('term')
+        if pt and pt['kind'] == ('lor' if op == '||' else 'land'):
+            short = 0 if op == '||' else 1
+            succ = fn.blocks[p]['succ']
+            if len(succ) == 2 and succ[short] == bid:
+                return op
+    return None
+
+
+def _edge_facts(fn, bid, idx):
+    """All facts established by taking successor #idx of block bid: [(key, pol, atom)]."""
+    key = (bid, idx)
+    cache = fn.__dict__.setdefault('_efcache', {})
+    if key in cache:
+        return cache[key]
+    res = _edge_facts_uncached(fn, bid, idx)
+    cache[key] = res
+    return res
+
+
+def _edge_facts_uncached(fn, bid, idx):
     b = fn.blocks[bid]
     t = b.get('term')
     if not t:
-        return None
+        return []
     succ = b['succ']
     if t['kind'] in COND_KINDS and len(succ) == 2 and 'cond' in t:
         if succ[0] == succ[1]:
-            return None
+            return []
+        jf = _join_form(fn, bid)
+        if jf is not None:
+            c = t['cond']
+            while isinstance(c, dict) and c.get('k') == 'tobool':
+                c = c['e']
+            ops = _flatten(c, jf)
+            # `a || b` false  => every operand false;  `a && b` true => every operand true
+            if (jf == '||' and idx == 1) or (jf == '&&' and idx == 0):
+                out = []
+                for o in ops:
+                    atom, pol = norm_cond(fn.prog, o)
+                    if isinstance(strip(atom), dict) and strip(atom).get('k') in ('bool', 'int'):
+                        continue
+                    if jf == '||':
+                        pol = not pol
+                    out.append((dstr(atom), pol, atom))
+                return out
+            return []       # the other side only tells a disjunction: no usable fact
         c = fn.eff_cond(bid)
         if c is None:
-            return None
+            return []
         atom, pol = norm_cond(fn.prog, c)
         if isinstance(strip(atom), dict) and strip(atom).get('k') in ('bool', 'int'):
-            return None             # constant condition: carries no information
+            return []             # constant condition: carries no information
         if idx == 1:
             pol = not pol
-        return dstr(atom), pol, atom
+        return [(dstr(atom), pol, atom)]
     if t['kind'] == 'switch' and 'cond' in t:
         s = succ[idx]
         if s is None:
-            return None
+            return []
         lab = fn.blocks[s].get('label')
         if lab and 'case' in lab and lab['case'][0] == lab['case'][1]:
             # several edges into the same block => no single fact
             if sum(1 for x in succ if x == s) != 1:
-                return None
+                return []
             cd = lab.get('cdesc')
             rhs = cd if isinstance(cd, dict) and strip(cd).get('k') == 'enum' else \
                 {'k': 'int', 'v': lab['case'][0]}
             atom = {'k': 'bin', 'op': '==', 'l': t['cond'], 'r': strip(rhs)}
             atom, pol = norm_cond(fn.prog, atom)
-            return dstr(atom), pol, atom
-    return None
+            return [(dstr(atom), pol, atom)]
+    return []
+
+
+def _edge_fact(fn, bid, idx):
+    fs = _edge_facts(fn, bid, idx)
+    return fs[0] if fs else None
 
 
 def _written_names(fn, e):
@@ -802,10 +878,11 @@ def _guard_facts(fn):
     edge_facts = {}
     for bid, b in fn.blocks.items():
         for idx in range(len(b['succ'])):
-            ef = _edge_fact(fn, bid, idx)
-            if ef:
-                edge_facts[(bid, idx)] = (ef[0], ef[1])
-                atoms[ef[0]] = ef[2]
+            efs = _edge_facts(fn, bid, idx)
+            if efs:
+                edge_facts[(bid, idx)] = [(ef[0], ef[1]) for ef in efs]
+                for ef in efs:
+                    atoms[ef[0]] = ef[2]
     fin = {bid: None for bid in fn.blocks}   # None = TOP
     fin[fn.entry] = frozenset()
     order = sorted(fn.blocks, reverse=True)
@@ -825,8 +902,7 @@ def _guard_facts(fn):
                 if s is None:
                     continue
                 out = set(cur)
-                ef = edge_facts.get((bid, idx))
-                if ef:
+                for ef in edge_facts.get((bid, idx), ()):
                     # the new fact replaces an older opposite one
                     out.discard((ef[0], not ef[1]))
                     out.add(ef)
@@ -935,7 +1011,10 @@ class Program:
                      if b.get('term') and b['term']['kind'] not in ('land', 'lor')]
             if len(rets) == 1 and not others and not conds and 'e' in rets[0] and \
                     f.retk in ('bool', 'ptr', 'int', 'uint', 'enum', 'record', 'other'):
-                res = (f, rets[0]['e'])
+                nodes = list(walk(rets[0]['e']))
+                # only small accessors / predicates are inlined; bigger ones stay calls
+                if len(nodes) <= 14 and not any(x.get('k') == 'deep' for x in nodes):
+                    res = (f, rets[0]['e'])
         self._wrappers[fid] = res
         return res
 
